@@ -85,6 +85,7 @@ type Exec struct {
 	vacuity  []string
 	specErr  string
 	boxed       map[string]Val  // slices converted to interface values (sort.Sort arguments), by payload symbol
+	siteAlias   string // interface-method alias of the call site being processed
 	constrained map[string]bool // fresh call results that a branch has already tested on this run
 	lenView  *HeapView // heap view for len() of maps inside contract expressions (nil = current)
 }
@@ -606,14 +607,26 @@ func (x *Exec) proveClause(st *State, env *Env, cl Clause, name, kind, where str
 
 // havocEffect forgets what a loop (or call) may modify.
 func (x *Exec) havocEffect(st *State, fr *Frame, eff *effect) {
+	wOld := st.water // objects below this mark existed before the loop / call
 	if eff.all {
 		x.havocAll(st)
 	} else {
 		if eff.alloc || len(eff.keys) > 0 {
 			x.bumpWater(st)
 		}
+		wBefore := wOld
 		for _, k := range sortedKeys(eff.keys) {
+			var oldT Term
+			freshOnly := eff.other != nil && !eff.other[k]
+			if freshOnly {
+				oldT = x.heapTerm(nil, st, k, eff.keys[k]).T
+			}
 			x.heapHavocKey(st, k, eff.keys[k])
+			if freshOnly {
+				// written through freshly allocated temporaries only: older objects keep their contents
+				nt := st.heap[k].T
+				x.assume(Term{fmt.Sprintf("(forall ((fa Int)) (! (=> (< fa %s) (= (select %s fa) (select %s fa))) :pattern ((select %s fa))))", x.waterBefore(wBefore).S, nt.S, oldT.S, nt.S), sBool})
+			}
 		}
 	}
 	var allocs []*ssa.Alloc
@@ -1096,6 +1109,13 @@ func (x *Exec) valEq(a, b Val) Term {
 			return tEq(a.T, tNil)
 		}
 		return tFalse
+	}
+	// an interface value against the pointer it holds (receiver of a devirtualized call)
+	if a.K == KIface && (b.K == KPtr || b.K == KClosure) {
+		return tAnd(tNot(tEq(a.Fs[0].T, tZero)), tEq(a.Fs[1].T, x.ptrTerm(b)))
+	}
+	if b.K == KIface && (a.K == KPtr || a.K == KClosure) {
+		return tAnd(tNot(tEq(b.Fs[0].T, tZero)), tEq(b.Fs[1].T, x.ptrTerm(a)))
 	}
 	switch a.K {
 	case KScalar:
@@ -1722,3 +1742,5 @@ func (fc *FuncContract) wantsStore(name string) bool {
 	}
 	return false
 }
+
+func (x *Exec) waterBefore(w Term) Term { return w }
